@@ -20,7 +20,7 @@ use sos_sync::{
     ForceMerge, MaybeConflict, Merge, MergeOutcome, StorageEventLogs,
     SyncDirection, SyncStatus,
 };
-use std::collections::{HashMap, HashSet};
+use std::collections::HashMap;
 use tracing::instrument;
 
 const PROOF_SCAN_LIMIT: u16 = 32;
@@ -632,10 +632,25 @@ pub trait AutoMerge: RemoteSyncHandler {
             "auto_merge::merge_patches",
         );
 
-        let local_commits =
-            local.iter().map(|r| r.commit()).collect::<HashSet<_>>();
-        let remote_commits =
-            remote.iter().map(|r| r.commit()).collect::<HashSet<_>>();
+        // Count the occurrences; the same event may have been
+        // committed more than once
+        let mut remote_counts = HashMap::new();
+        for record in &remote {
+            *remote_counts.entry(*record.commit()).or_insert(0usize) += 1;
+        }
+        let mut local_in_remote = true;
+        {
+            let mut remaining = remote_counts.clone();
+            for record in &local {
+                match remaining.get_mut(record.commit()) {
+                    Some(count) if *count > 0 => *count -= 1,
+                    _ => {
+                        local_in_remote = false;
+                        break;
+                    }
+                }
+            }
+        }
 
         // If all the local commits exist in the remote
         // then apply the remote events to the local event
@@ -643,7 +658,7 @@ pub trait AutoMerge: RemoteSyncHandler {
         //
         // If we didn't do this then automerge could go on
         // ad infinitum.
-        if local_commits.is_subset(&remote_commits) {
+        if local_in_remote {
             return Ok(AutoMergeStatus::RewindLocal(remote));
         }
 
